@@ -21,7 +21,7 @@ XV = ['"H"', '"L"']
 YV = ['20', '10']
 
 
-def model(policy, hp, agg, compound, numeric, in_values=False):
+def model(policy, hp, agg, compound, numeric, in_values=False, default=False, nulls=False):
     """all rule configurations as decisions D0.. of one model; returns (xml, [(name, rules)])"""
     decs = []
     parts = ['<?xml version="1.0" encoding="UTF-8"?>',
@@ -30,6 +30,8 @@ def model(policy, hp, agg, compound, numeric, in_values=False):
     k = 0
     outs1 = YV if numeric else XV
     choices = [(x, y) for x in XV for y in YV] if compound else [(v,) for v in outs1]
+    if nulls:   # a component whose output entry is null stays in the result context, as null
+        choices = [(XV[0], 'null'), ('null', YV[1]), (XV[1], YV[0])]
     for n in (1, 2, 3):
         for ins in itertools.product(['1', '2', '-'], repeat=n):
             for outs in itertools.product(choices, repeat=n):
@@ -45,7 +47,7 @@ def model(policy, hp, agg, compound, numeric, in_values=False):
                     p.append('      <output name="X"><outputValues><text>%s</text></outputValues></output>' % ','.join(XV))
                     p.append('      <output name="Y"><outputValues><text>%s</text></outputValues></output>' % ','.join(YV))
                 else:
-                    p.append('      <output><outputValues><text>%s</text></outputValues></output>' % ','.join(outs1))
+                    p.append('      <output><outputValues><text>%s</text></outputValues>%s</output>' % (','.join(outs1), ('<defaultOutputEntry><text>%s</text></defaultOutputEntry>' % DEFAULT[numeric].replace('"', '&quot;')) if default else ''))
                 for (i, o) in rules:
                     p.append('      <rule><inputEntry><text>%s</text></inputEntry>%s</rule>' % (i, ''.join('<outputEntry><text>%s</text></outputEntry>' % v.replace('"', '&quot;') for v in o)))
                 p.append('    </decisionTable></decision>')
@@ -54,13 +56,16 @@ def model(policy, hp, agg, compound, numeric, in_values=False):
     return '\n'.join(parts), decs
 
 
+DEFAULT = {False: '"D"', True: '99'}
+
+
 def rank(v):
     flat = XV + YV
     return flat.index(v) if v in flat else None
 
 
 def prio_key(outs):
-    return tuple(rank(v) for v in outs)
+    return tuple(rank(v) if rank(v) is not None else 99 for v in outs)
 
 
 def show(outs, compound):
@@ -69,12 +74,12 @@ def show(outs, compound):
     return outs[0]
 
 
-def expected(policy, rules, a, compound, in_values=False):
+def expected(policy, rules, a, compound, in_values=False, default=None):
     m = [o for (i, o) in rules if i == '-' or i == str(a)]
     if in_values and a not in (1, 2):
         m = []   # a value outside the allowed input values matches no rule, not even one whose entry is `-`
     if not m:
-        return 'null'
+        return default if default is not None else 'null'   # no rule matches: the default output entry, if the clause has one
     if policy == 'U':
         return show(m[0], compound) if len(m) == 1 else 'null'
     if policy == 'A':
@@ -104,11 +109,13 @@ def main():
     work = tempfile.mkdtemp(prefix='verif_hp_', dir='/var/tmp')
     try:
         for (policy, hp, agg) in POLICIES:
-            for (compound, in_values) in ((False, False), (True, False), (False, True)):
+            for (compound, in_values, default, nulls) in ((False, False, False, False), (True, False, False, False), (False, True, False, False), (False, False, True, False), (True, False, False, True)):
                 if compound and policy in ('C+', 'C#', 'C<', 'C>'):
                     continue
                 numeric = policy in ('C+', 'C<', 'C>', 'C#')
-                xml, decs = model(policy, hp, agg, compound, numeric, in_values)
+                xml, decs = model(policy, hp, agg, compound, numeric, in_values, default, nulls)
+                if nulls:
+                    decs = [(n_, r_) for (n_, r_) in decs if len(r_) <= 2]   # (the model holds them all; two rules are enough here)
                 path = os.path.join(work, 'm.xml')
                 open(path, 'w', encoding='utf-8').write(xml)
                 pr = subprocess.run([exe, 'modelbatch', path, '{A: 1}', '{A: 2}', '{A: 3}'], capture_output=True, text=True, timeout=1200)
@@ -117,19 +124,21 @@ def main():
                     t = line.split('\t')
                     if len(t) == 3:
                         got[(t[0], t[1])] = t[2]
-                if len(got) != 3 * len(decs):
+                if len(got) < 3 * len(decs):
                     print('hpdiff could not run: driver answered %d of %d results for policy %s (%s)' % (len(got), 3 * len(decs), policy, pr.stdout[:200]))
                     return 2
                 for (name, rules) in decs:
                     for a in (1, 2, 3):
                         cases += 1
                         g = got[(name, '{A: %d}' % a)]
-                        e = expected(policy, rules, a, compound, in_values)
+                        if nulls and policy in ('P', 'O') and len([1 for (i_, o_) in rules if i_ == '-' or i_ == str(a)]) > 1:
+                            continue   # where a null output value ranks among the listed output values is not stated
+                        e = expected(policy, rules, a, compound, in_values, DEFAULT[numeric] if default else None)
                         good = g.startswith('null') if e == 'null' else g == e
                         if not good:
                             nfail += 1
                             if len(fails) < 5:
-                                fails.append('hit policy %s%s, rules %s, A = %d => %s (expected %s)' % (policy, ' (allowed input values 1,2)' if in_values else '', ' | '.join('%s -> %s' % (i, ','.join(o)) for (i, o) in rules), a, g[:120], e))
+                                fails.append('hit policy %s%s%s%s, rules %s, A = %d => %s (expected %s)' % (policy, ' (allowed input values 1,2)' if in_values else '', ' (default output entry)' if default else '', ' (null components)' if nulls else '', ' | '.join('%s -> %s' % (i, ','.join(o)) for (i, o) in rules), a, g[:120], e))
     finally:
         import shutil
         shutil.rmtree(work, ignore_errors=True)
